@@ -150,8 +150,11 @@ impl RefReg {
         self.event & self.enable & 0x7fff != 0
     }
     pub fn of(r: &EventRegister) -> RefReg {
+        // the condition register is observed through the device-side getter, bit by bit (it must agree
+        // with what CONDition? reports, which the lock-step comparison of responses pins)
+        let cond: u16 = (0..16).map(|b| (r.get_condition_bit(1u16 << b) as u16) << b).sum();
         RefReg {
-            cond: r.condition,
+            cond,
             event: r.event,
             enable: r.enable,
             ptr: r.ptr_filter,
